@@ -29,6 +29,7 @@ SYNC_RULE = ("sync stream: per case a fresh regtest canister (threshold 1-4, def
 
 PROPS = {
     "C01": {
+        "spec_ops": ["c ledgerat"],
         "streams": [{"name": "ledger", "quick": 160, "thorough": 1600}, {"name": "sync", "quick": 64, "thorough": 800}],
         "rule": LEDGER_RULE,
         "explanation": "theorems: for every state satisfying the global invariant Inv (established by init, preserved by push of a transaction-valid block and by ingestion+pop: Props/InvPush, Props/InvIngest) "
@@ -41,6 +42,7 @@ PROPS = {
         "assumptions": ["Address::from_script and txid computation are library functions (given)"],
     },
     "C05": {
+        "spec_ops": ["c sumat"],
         "streams": [{"name": "ledger", "quick": 160, "thorough": 1600}, {"name": "sync", "quick": 64, "thorough": 800}],
         "rule": LEDGER_RULE,
         "explanation": "theorems: under Inv, get_balance(a, c) = total value of the ledger at the same prefix get_utxos(a, c) walks = sum of the UTXOs it returns (all pages); identical errors for malformed / wrong-network address and too large c; "
